@@ -206,6 +206,52 @@ def custom_remove_history(rng, i):
     return g.script(), [], {}
 
 
+def dup_remove_history(rng, i):
+    """Several members propose the removal of the SAME member; the committer's cache holds all of these proposals
+    and its commit removes a further member (by value or by another cached proposal).  Every removed member is
+    out of the new tree and no secret of the commit is sealed to a key of theirs."""
+    n = rng.choice([5, 6, 7])
+    g = HistGen(rng, n_pool=n + 1, name=f"c02-dr{i}", storage="mem")
+    g.start()
+    g.round(n_props=0, by_value_adds=n - 1, by_value_removes=0, app=False, encrypt=False, observe="all")
+    ops = g.ops
+    for r in range(2):
+        if len(g.in_group) < 5:
+            break
+        c = rng.choice(g.in_group)
+        d_, e_ = rng.shuffle([m for m in g.in_group if m != c])[:2]
+        proposers = rng.shuffle([m for m in g.in_group if m not in (d_, e_)])[:2 + rng.below(2)]
+        for m in g.in_group:
+            ops.append({"op": "opts", "who": m, "encrypt_controls": False, "tree_ext": True})
+        by_ref_e = (i + r) % 2 == 1
+        plan = [(p_, d_) for p_ in proposers]
+        if by_ref_e:
+            plan.append((rng.choice([m for m in g.in_group if m not in (d_, e_)]), e_))
+        for p_, target in plan:
+            pid = g.fresh("p")
+            ops.append({"op": "propose", "who": p_, "kind": "remove", "name": target, "id": pid})
+            for m in g.in_group:
+                if m != p_:
+                    ops.append({"op": "deliver", "to": m, "msg": pid})
+        cid = g.fresh("c")
+        o = {"op": "commit", "who": c, "id": cid}
+        if not by_ref_e:
+            o["remove_names"] = [e_]
+        ops.append(o)
+        for m in g.in_group:
+            if m != c:
+                ops.append({"op": "deliver", "to": m, "msg": cid})
+        ops.append({"op": "apply", "who": c})
+        for t in (d_, e_):
+            g.in_group.remove(t)
+            g.removed.append(t)
+        g.epoch += 1
+        g.commit_ids.append(cid)
+        ops.append({"op": "observe", "who": c, "observe": "all"})
+        g.round_explicit(rng.choice(g.in_group), n_adds=0, remove_names=[])
+    return g.script(), [], {}
+
+
 def main(run, args):
     rng = Rng(run.seed)
     run.assumptions += [
@@ -239,6 +285,9 @@ def main(run, args):
         scripts.append(sc); stales.append(st); removed.append(rm)
     for i in range(6 if quick else 40):
         sc, st, rm = custom_remove_history(rng, i)
+        scripts.append(sc); stales.append(st); removed.append(rm)
+    for i in range(6 if quick else 40):
+        sc, st, rm = dup_remove_history(rng, i)
         scripts.append(sc); stales.append(st); removed.append(rm)
     recs = run_scripts(scripts, timeout=2400)
     failing = []
